@@ -300,3 +300,46 @@ func H_C16_handle_vote_message() {
 		verifAssert(c16Transitions == 0, "vote-for-other-height-ignored")
 	}
 }
+
+// c16BlockID2: every combination of block hash {zero, B1}, part total {0, 1} and parts hash
+// {none, A1, A2} - the degenerate ones (total 0 with a hash, hash without total) included
+func c16BlockID2() types.BlockID {
+	var id types.BlockID
+	if verifNondetBool() {
+		id.Hash = common.Hash{0xB1}
+	}
+	id.PartsHeader.Total = verifCase(2)
+	switch verifCase(3) {
+	case 1:
+		id.PartsHeader.Hash = []byte{0xA1}
+	case 2:
+		id.PartsHeader.Hash = []byte{0xA2}
+	}
+	return id
+}
+
+// A second vote of a validator for the same height/round/type (a duplicate, an equivocation, or the
+// same vote re-signed), delivered by another peer after the first one was accepted: whatever the two
+// block ids are, the consensus routine survives it (the conflict becomes evidence or an error).
+//
+//verif:opt unwind=12 budget_s=1200 split=48
+func H_C16_handle_second_vote_of_a_validator() {
+	cs := c16State(1 + 2*verifCase(2)) // height 5, step NewHeight or Propose
+	before := c16Snap(cs)
+	typ := types.VoteTypePrevote
+	if verifNondetBool() {
+		typ = types.VoteTypePrecommit
+	}
+	i := verifCase(2)
+	mk := func() *types.Vote {
+		return &types.Vote{ValidatorAddress: c16PubKey(i).Address(), ValidatorIndex: i, ValidatorSize: 2, Height: cs.Height,
+			Round: cs.Round, Type: typ, BlockID: c16BlockID2(), Signature: c16Sig()}
+	}
+	first := mk()
+	added, err := cs.Votes.AddVote(first, "peer0")
+	verifAssume(added && err == nil)
+	second := mk()
+	cs.handleMsg(msgInfo{&VoteMessage{second}, "peer1"})
+	verifReach("second-vote-handled")
+	verifAssert(cs.Height == before.height && cs.Round == before.round, "second-vote-does-not-move-height-or-round")
+}
